@@ -77,6 +77,13 @@ func envInt(name string, def int) int {
 	return def
 }
 
+// TestMain flushes the contract coverage measurement (VERIF_COVER) when the process ends.
+func TestMain(m *testing.M) {
+	rc := m.Run()
+	chainkit.FlushCoverage()
+	os.Exit(rc)
+}
+
 // deficientSigners draws a signer set that lacks the Alphabet multisignature: the given
 // outsider, a single committee member and - where they differ from the Alphabet account
 // (3 keys and more) - the committee majority n/2+1 and 2n/3 of the keys (one short).
